@@ -1858,6 +1858,11 @@ impl TypeLayout {
         let lhs = lhs.disregard_optional()?;
         let other = other.disregard_optional()?;
 
+        // a present optional is compared like the value it holds: `flag? == true`, `xs? == [1]`
+        if matches!(op, Eq | Neq) && lhs == other && lhs.supports_equ() {
+            return Some(TypeLayout::Native(NativeType::Bool));
+        }
+
         match op {
             Op::Is => {
                 if lhs == other {
